@@ -79,6 +79,8 @@ var (
 	stat    = summary{Status: map[string]int{}, Features: map[string]int{}, Known: map[string]int{}, Extra: map[string]int{}}
 	ntSet   = map[uint64]bool{}
 	lastBad *failure
+
+	sampleScores []int
 )
 
 func record(c *core.Case, v core.Verdict) {
@@ -111,8 +113,22 @@ func record(c *core.Case, v core.Verdict) {
 		h := c.Hash()
 		if !ntSet[h] {
 			ntSet[h] = true
+			// keep six samples, preferring later, structurally richer cases over the first ones seen
+			score := len(c.Query) + 40*len(c.Hist)
 			if len(stat.Samples) < 6 {
 				stat.Samples = append(stat.Samples, sampleOf(c))
+				sampleScores = append(sampleScores, score)
+			} else {
+				lo := 0
+				for i := range sampleScores {
+					if sampleScores[i] < sampleScores[lo] {
+						lo = i
+					}
+				}
+				if score > sampleScores[lo] && score < 400 {
+					stat.Samples[lo] = sampleOf(c)
+					sampleScores[lo] = score
+				}
 			}
 		}
 	}
